@@ -9,7 +9,7 @@ let dispatch kind args =
   | "v1conv" | "v1reloc" -> C11.run kind args
   | "enc" | "dec" -> C04.run kind args
   | "symtab" | "loadsok" | "finame" -> C13.run kind args
-  | "foldbin" | "foldun" | "litfalsy" -> C01.run kind args
+  | "foldbin" | "foldun" | "litfalsy" | "optexpr" -> C01.run kind args
   | "wffn" -> C05.run kind args
   | "callbind" -> C14.run kind args
   | "unpack" | "shiftlines" -> C16.run kind args
